@@ -442,6 +442,7 @@ func runC16(c *fw.Check) {
 		// print -> parse -> Equal.
 		c16roundtrip(c, u, ds, canon, X, envX)
 	}
+	c16boundaries(c)
 	c16mutations(c)
 	c.Sample(map[string]string{"t": canon[len(canon)/2], "u": canon[len(canon)/3], "oracle": "Equal(t,u) == (canon(t)==canon(u))"})
 	c.Sample(map[string]string{"t": canon[len(canon)-1], "printed_and_reparsed": ds[len(ds)-1].build(c16env(1)).String()})
